@@ -398,4 +398,5 @@ func TestC11(t *testing.T) {
 			}
 		}
 	}
+	c11LongFields(t, r, meta)
 }
